@@ -260,7 +260,10 @@ type gen struct{ r *rand.Rand }
 func (g *gen) ord(d rune) rune {
 	for {
 		var c rune
-		if g.r.Intn(100) < 55 {
+		if d == 0xA7 && g.r.Intn(8) == 0 {
+			// 'ç' is C3 A7 in UTF-8: its second byte equals the code point of the delimiter '§'
+			c = 0xE7
+		} else if g.r.Intn(100) < 55 {
 			c = common[g.r.Intn(len(common))]
 		} else {
 			c = ordinary[g.r.Intn(len(ordinary))]
